@@ -136,12 +136,12 @@ ADDENDA = {
     'C02': ('user expressions moved into generated function scopes (SCOPE-MOVE); imported rules: activity traversal/order (C08), getter/setter, support-set, output-count and tuple-order rules (C03), closure liveness and value-type state (C07)', ''),
     'C03': ('imported setter-parameter hygiene rule (C11 HYG-SUPPORT); abstract evaluation of the BoolOp / Compare folds: every operand of and_ / or_ is a lambda (FOLD); alias analysis of module-level mutable objects (SHARED-MUT, with positive-control fixture); abstract evaluation of QN.support_set as a structural fold (QN-SUPPORT)',
             ' Directive tables and option nodes are per loop (no module-level mutable object is mutated through an alias); the support of a composite is the union of the supports of its parts.'),
-    'C04': ('definition-time fields of a nested def (decorators, defaults, return annotation) dispatched outside the function's own frame, with a guarded traversal exception for the top-level return annotation; order constraint O6 for code parked in annotations; FOLD and STALE (see C01); exact predicates for the documented native-call exceptions; imported cache-key / option equality rules (C10, C20)', ''),
+    'C04': ('definition-time fields of a nested def (decorators, defaults, return annotation) dispatched outside the frame of the function itself, with a guarded traversal exception for the top-level return annotation; order constraint O6 for code parked in annotations; FOLD and STALE (see C01); exact predicates for the documented native-call exceptions; imported cache-key / option equality rules (C10, C20)', ''),
     'C05': ('an entry of the statement-edge tables for every statement that owns a node (CFG-MIRROR); reachability order of statement-list visits relative to the lexical-scope window (CFG-SCOPE); per-section builder state keyed by the section (CFG-KEYED); path analysis of jump recording and wiring in the builder (CFG-WIRE)',
             ' Loop bodies and try body/else are visited while their statement is on the lexical scope stack, loop else and finally bodies after it has left; nestable sections keep their state in tables keyed by the section.'),
     'C06': ('totality of the state equality behind the change flag (RD-FLAG); value-type check of the lattice state class; imported CFG rules (C05) and activity traversal / parameter rules (C08)', ''),
     'C07': ('path-wise values of the block live-in annotation, annotators found by role (LV-BLOCK); value-type check of the reaching-function-definitions state; imported CFG rules (C05) and activity traversal / order / finalisation rules (C08)', ''),
-    'C08': ('the class body's isolated scope is closed into the scope recorded on the class statement (symbolic scope stack); symbolic scope-stack evaluation of the lambda handler (the calling statement receives read minus bound of the one isolated scope); comprehension-locality decided over every comprehension frame; one scope record per tag per path; no removal from the symbol sets of a scope (SCOPE-GROWS); must-traverse analysis of every ActivityAnalyzer / QnResolver handler over every field that can hold a Name (ACT-TRAV, constant-flag and literal-iteration aware); dominance-based visit order (ACT-ORDER); per-name recording of global/nonlocal lists; state-frame pairing (ACT-FRAME)',
+    'C08': ('the isolated scope of the class body is closed into the scope recorded on the class statement (symbolic scope stack); symbolic scope-stack evaluation of the lambda handler (the calling statement receives read minus bound of the one isolated scope); comprehension-locality decided over every comprehension frame; one scope record per tag per path; no removal from the symbol sets of a scope (SCOPE-GROWS); must-traverse analysis of every ActivityAnalyzer / QnResolver handler over every field that can hold a Name (ACT-TRAV, constant-flag and literal-iteration aware); dominance-based visit order (ACT-ORDER); per-name recording of global/nonlocal lists; state-frame pairing (ACT-FRAME)',
             ' Every handler of the activity analysis and of the qualified-name resolver visits every symbol-bearing field on every path; comprehension iterables are visited before their targets are registered.'),
     'C09': ('imported activity traversal rule restricted to parameter fields (C08)', ''),
     'C10': ('imported binding rules of instantiate (C09: IFACE-BIND, IFACE-INST); guard analysis of every caching call of the unconverted path: remembered decisions depend on (function, options) only; imported option equality rules (C20)', ''),
